@@ -1244,12 +1244,74 @@ func (g *Gen) History() []E {
 	if (g.P.Name == "reads" || g.P.Name == "general") && g.P.Indexes && g.chance(0.35) {
 		evs = append(evs, g.lifecycleSweep()...)
 	}
+	if (g.P.Name == "sort" || g.P.Name == "ties" || g.P.Name == "reads") && g.P.NumTable == "general" && g.chance(0.4) {
+		evs = append(evs, g.mixedNumbersSweep()...)
+	}
 	for len(evs) < g.P.Ops {
 		op := g.weightedOp()
 		if !g.P.Indexes && (op == "CreateIndex" || op == "DropIndex") {
 			continue
 		}
 		evs = append(evs, g.event(op))
+	}
+	return evs
+}
+
+// mixedNumbersSweep: integers and the fractions next to them (-2.5, -1, -0.5, 0, 0.5, 1, 1.5, 2), each number in
+// every representation it has, in one field; sorted reads in both directions with windows, comparisons against
+// each of them - with the sort served by the comparison (no index on the field) and by an index.
+func (g *Gen) mixedNumbersSweep() []E {
+	var c string
+	for _, x := range g.colls {
+		if g.created[x] {
+			c = x
+			break
+		}
+	}
+	if c == "" {
+		return nil
+	}
+	f := g.pick([]string{"k", "b", "z"})
+	var evs []E
+	var docs []interface{}
+	free := g.freeIds(c)
+	i := 0
+	for ord, e := range g.U.nums {
+		if !(e.name == "-2.5" || e.name == "-1" || e.name == "-0.5" || e.name == "0" || e.name == "0.5" || e.name == "1" || e.name == "1.5" || e.name == "2") {
+			continue
+		}
+		for _, rep := range g.U.Reps(ord) {
+			if i >= len(free) || rep == "f-" && g.chance(0.5) {
+				break
+			}
+			docs = append(docs, AObj("_id", AStr(free[i]), f, ANum(ord, rep)))
+			g.noteInsert(c, free[i])
+			i++
+		}
+	}
+	if len(docs) == 0 {
+		return nil
+	}
+	g.r.Shuffle(len(docs), func(a, b int) { docs[a], docs[b] = docs[b], docs[a] })
+	evs = append(evs, E{"op": "Insert", "c": c, "docs": docs})
+	reads := func() {
+		for _, dir := range []int{1, -1} {
+			srt := []interface{}{"sort", []interface{}{[]interface{}{B(f), dir}, []interface{}{B("_id"), 1}}}
+			evs = append(evs, E{"op": "FindAll", "c": c, "q": []interface{}{srt}})
+			evs = append(evs, E{"op": "FindAll", "c": c, "q": []interface{}{srt, []interface{}{"skip", 1 + g.r.Intn(4)}, []interface{}{"limit", 1 + g.r.Intn(5)}}})
+		}
+		d := toV(docs[g.r.Intn(len(docs))])
+		v, _ := ObjGet(d, f)
+		for _, op := range []string{"gt", "lte"} {
+			evs = append(evs, E{"op": "FindAll", "c": c, "q": []interface{}{[]interface{}{"where", []interface{}{"un", op, B(f), []interface{}{"lit", v}}},
+				[]interface{}{"sort", []interface{}{[]interface{}{B(f), 1}, []interface{}{B("_id"), -1}}}}})
+		}
+	}
+	reads()
+	if g.P.Indexes && !g.idx[c][f] {
+		g.idx[c][f] = true
+		evs = append(evs, E{"op": "CreateIndex", "c": c, "f": B(f)})
+		reads()
 	}
 	return evs
 }
